@@ -264,6 +264,26 @@ theorem srl_sound (tol : Rat) (htol : tol * tol ≤ 1 / 4) (n i j : Nat) (hi : i
       = GV.coeff (applyOp .fermion [([(i, 1), (j, 0)], c)] [s]) [s'] :=
   srl_of_den tol htol n i j hi hj c _ s s' (srl_all tol htol n i j hi hj c hok s _)
 
+/-- **the lists returned by `_seeley_richard_love` are exact, unconditionally**: the raw operator
+`Σ_m coefs[m] · ops[m]` (strings as emitted, before `QubitOperator` merges factors; no `+=`, hence no tolerance
+and no regime hypothesis) has the matrix elements of `c a†_i a_j` between encoded states — every `n`, all
+`i, j < n`, every complex `c`, whichever branch fires. -/
+theorem srl_lists_exact (n i j : Nat) (hi : i < n) (hj : j < n) (c : GQ) (s s' : Nat) :
+    GV.coeff (applyOp .qubit ((srl i j c n).2.1.zip (srl i j c n).2.2) [Spec.C05.enc .bk n s]) [Spec.C05.enc .bk n s']
+      = GV.coeff (applyOp .fermion [([(i, 1), (j, 0)], c)] [s]) [s'] := by
+  have htol : (0 : Rat) * 0 ≤ 1 / 4 := by norm_num
+  have h1 := srl_sum 0 htol n i j hi hj c s (δ (Spec.C05.enc .bk n s'))
+  have h2 := bkTerm_hop' 0 htol n i j hi hj c s (Spec.C05.enc .bk n s')
+  have h3 := bk_term_exact 0 htol n [(i, 1), (j, 0)]
+    (by intro f hf; simp at hf; rcases hf with rfl | rfl <;> simp <;> omega) c s s'
+  rw [← h3]
+  change den .qubit _ _ _ = den .qubit _ _ _
+  rw [h2, ← h1, den_eq_sum]
+  congr 1
+  apply List.map_congr_left
+  intro tc _
+  rw [termCoef_φW]
+
 /-- … and it maps encoded states to encoded states only -/
 theorem srl_support (tol : Rat) (htol : tol * tol ≤ 1 / 4) (n i j : Nat) (hi : i < n) (hj : j < n) (c : GQ)
     (hok : srlOk tol i j c n = true) (s x : Nat) (hx : ∀ s', Spec.C05.enc .bk n s' ≠ x) :
